@@ -25,6 +25,23 @@ type FuncResult struct {
 	Vacuity   *Obligation // requires-satisfiable (expects sat)
 	Loops     int
 	Pos       string
+	Used      []string
+	fv        *FV
+}
+
+// evalEntry evaluates a contract-language predicate over the function's entry state.
+func (r *FuncResult) evalEntry(src string) (t *Term, err error) {
+	defer func() {
+		if x := recover(); x != nil {
+			err = fmt.Errorf("region %q: %v", src, x)
+		}
+	}()
+	e, perr := ParseExpr(src, "known_findings.json")
+	if perr != nil {
+		return nil, perr
+	}
+	env := &Env{fv: r.fv, pkg: r.fv.pkgPath, st: r.fv.entry, vars: r.fv.entryEnv}
+	return env.evalBool(e), nil
 }
 
 func displayName(pkgPath, key string) string {
@@ -47,7 +64,7 @@ func VerifyFunc(P *Program, c *Contract, maxPaths int) (res *FuncResult) {
 	}
 	fv := &FV{P: P, fn: fn, c: c, l: layout{c.Mode}, pkgPath: c.Pkg, name: res.Name,
 		ordinals: map[string]map[ssa.Instruction]int{}, trusted: map[string]bool{}, inlined: map[string]bool{},
-		maxPaths: maxPaths, sentinel: map[string]int{}}
+		maxPaths: maxPaths, sentinel: map[string]int{}, used: map[string]bool{}}
 	defer func() {
 		if r := recover(); r != nil {
 			if ee, ok := r.(execError); ok {
@@ -58,6 +75,11 @@ func VerifyFunc(P *Program, c *Contract, maxPaths int) (res *FuncResult) {
 		}
 		res.Obls = fv.obls
 		res.Paths = fv.paths
+		res.fv = fv
+		for k := range fv.used {
+			res.Used = append(res.Used, k)
+		}
+		sort.Strings(res.Used)
 		for k := range fv.trusted {
 			res.Trusted = append(res.Trusted, k)
 		}
@@ -90,6 +112,7 @@ func VerifyFunc(P *Program, c *Contract, maxPaths int) (res *FuncResult) {
 	var args []Value
 	var argTypes []types.Type
 	for _, p := range fn.Params {
+		fv.paramFirst = append(fv.paramFirst, fv.nfresh+1)
 		v := fv.freshValue("p_"+p.Name(), p.Type())
 		fv.assumeType(st, v, p.Type())
 		args = append(args, v)
